@@ -3,7 +3,10 @@ package main
 import (
 	"bytes"
 	"crypto/elliptic"
+	"fmt"
 	"math/rand"
+	"strings"
+	"time"
 
 	"github.com/cloudflare/pat-go/tokens/type3"
 )
@@ -28,6 +31,18 @@ func execOrigin(c *ctx, in ev) []ev {
 	case "Hist":
 		out := []ev{{"op": "ONew"}}
 		issuer := type3.NewRateLimitedIssuer(rsaKey(gI(in, "rsa")))
+		// ANOTHER issuer of the same process has other origins: issuers share nothing
+		if neighbour := type3.NewRateLimitedIssuer(rsaKey(gI(in, "rsa") + 1)); neighbour != nil {
+			for _, st := range gL(in, "steps") {
+				if s := st.(map[string]any); s["k"] == "E" {
+					nk, _ := rawKey(elliptic.P384(), p384Scalar(c.seed, "ik-neighbour"))
+					neighbour.AddOriginWithIndexKey(string(jBytes(s["name"])), nk)
+				}
+			}
+		}
+		// requests are evaluated through a COPY BY VALUE of the issuer taken before anything was registered (Evaluate has
+		// a value receiver: copies of an issuer are the same issuer)
+		valueCopy := *issuer
 		r := newRand(c.seed, "origin-hist")
 		secret := p384Scalar(c.seed, "origin-client")
 		client := type3.NewRateLimitedClientFromSecret(secret)
@@ -51,12 +66,40 @@ func execOrigin(c *ctx, in ev) []ev {
 					}
 					enc := st.Request().Marshal()
 					e["created"], e["size"] = true, len(enc)
-					resp, _, err := issuer.Evaluate(append([]byte{}, enc...))
-					e["served"] = err == nil && len(resp) > 0
-					e["err"] = errStr(err)
+					// (with a limit: an issuer that stops answering is reported, not waited for)
+					type res struct {
+						resp []byte
+						err  error
+						pan  string
+					}
+					done := make(chan res, 1)
+					go func() {
+						var rr res
+						rr.pan = guard(func() {
+							if i%2 == 0 {
+								rr.resp, _, rr.err = issuer.Evaluate(append([]byte{}, enc...))
+							} else {
+								rr.resp, _, rr.err = valueCopy.Evaluate(append([]byte{}, enc...))
+							}
+						})
+						done <- rr
+					}()
+					select {
+					case rr := <-done:
+						if rr.pan != "" {
+							panic(rr.pan)
+						}
+						e["served"] = rr.err == nil && len(rr.resp) > 0
+						e["err"] = errStr(rr.err)
+					case <-time.After(20 * time.Second):
+						panic("Evaluate did not return within 20 s")
+					}
 				})
 				e["panic"] = p
 				out = append(out, e)
+				if strings.Contains(p, "did not return within") {
+					return out // an issuer that has stopped answering: the rest of the history would only wait
+				}
 			}
 		}
 		return out
@@ -176,6 +219,15 @@ func genOrigin(c *ctx, emit func(ev)) {
 		// a short registered name is still served after requests for longer names on the same issuer
 		steps = append(steps, ev{"k": "E", "name": B(short)})
 		emit(ev{"op": "Hist", "rsa": i % 4, "steps": steps})
+	}
+	// many refused requests in a row, then the registered name: refusals use nothing up
+	{
+		steps := []any{ev{"k": "R", "o": B([]byte("served.example"))}}
+		for k := 0; k < 80; k++ {
+			steps = append(steps, ev{"k": "E", "name": B([]byte(fmt.Sprintf("refused-%d.example", k)))})
+		}
+		steps = append(steps, ev{"k": "E", "name": B([]byte("served.example"))}, ev{"k": "E", "name": B([]byte("served.example"))})
+		emit(ev{"op": "Hist", "rsa": 0, "steps": steps})
 	}
 }
 
